@@ -447,7 +447,10 @@ def oracle(chk, table, raws, hist, outcome, seen):
             continue
         if attr != "media":
             if o[1] != exp_lit:
-                chk.fail(T_MIXIN if exp_lit != exp_comp else "c16-attr-nearest-pair",
+                # known finding: INPUT class = a plain (non-component) class of the MRO defines a member of the pair ahead of
+                # the first component definer (exp_lit != exp_comp), and the code returns exactly the component definer's
+                # value; anything else stays an ordinary failure
+                chk.fail(T_MIXIN if (exp_lit != exp_comp and o[1] == exp_comp) else "c16-attr-nearest-pair",
                          "%s of class %d is %r, the nearest class of the MRO defining either member says %r" % (attr, ci, o[1], exp_lit), rep)
             continue
         for k in range(len(KEYS)):
@@ -801,7 +804,7 @@ def gen_tables(chk, thorough):
         for sh in shapes(n):
             combos = list(itertools.product(JS_LISTS, repeat=n))
             if n == 3 and not thorough:
-                combos = rng.sample(combos, 40)
+                combos = rng.sample(combos, 30)
             for ls in combos:
                 yield [mk(b, md(True, l)) for b, l in zip(sh, ls)], "exh-shape%d" % n, "media-perms"
     # 2. ALL access orders on every shape of <= 3 classes
@@ -975,7 +978,7 @@ def run(tier, seed):
              "extend lists, template/js/css and *_file pairs incl. both-members); 7 stacked-diamond shapes of 5-6 classes; Media files lying beside the component module; "
              "plain mixins defining template/js/css; classes with a missing asset file. Each history runs on fresh class objects. "
              "Non-trivial = some class receives files from >= 2 classes with a non-empty own Media. Distinct = distinct (table, history, written forms)."
-             % ("all" if thorough else "40 sampled per shape", "3-4" if thorough else "1-2"),
+             % ("all" if thorough else "30 sampled per shape", "3-4" if thorough else "1-2"),
         explanation="theorems of Props/C16.v re-checked by coqc (incl. the source anchors of Media/Anchors.v against the regenerated Gen/C16.v); model (normalisation of the "
                     "written Media forms + work-stack + memo + Media.__add__/merge/graphlib + C3 + pair rule) evaluated by vm_compute inside Coq on every history and "
                     "compared with the observed _js/_css/attribute values/creation errors; independent Python oracles: file set = own + selected bases, no duplicates, "
